@@ -117,6 +117,36 @@ theorem sur_mask (w : Nat) (h : w &&& 64512 = 55296) : w &&& 63488 = 55296 := by
   have e : w &&& 63488 = (w &&& 64512) &&& 63488 := by rw [Nat.and_assoc, k]
   rw [e, h]; decide
 
+/-- the value of one hexadecimal digit computed arithmetically (`c <= '9' ? c - '0' : (c | 0x20) - 'a' + 10`) -/
+theorem hexdigit_arith (c : Byte) (h : isHexDigit c = true) :
+    (if c ≤ 57 then c - 48 else (c ||| 32) - 97 + 10) = hexVal c ∧ hexVal c < 16 := by
+  have hc : c < 103 := by
+    simp only [isHexDigit, isDigit, Bool.or_eq_true, Bool.and_eq_true, decide_eq_true_eq] at h
+    omega
+  have key : ∀ c : Nat, c < 103 → isHexDigit c = true →
+      (if c ≤ 57 then c - 48 else (c ||| 32) - 97 + 10) = hexVal c ∧ hexVal c < 16 := by decide
+  exact key c hc h
+
+theorem shl4_or (x y : Nat) (hy : y < 16) : x <<< 4 ||| y = x * 16 + y := by
+  rw [← Nat.shiftLeft_add_eq_or_of_lt (by simpa using hy), Nat.shiftLeft_eq]
+
+/-- four hexadecimal digits accumulated with shifts (`result = (result << 4) | digit`) are `sscanf("%x")` of them -/
+theorem hexword_arith (a0 a1 a2 a3 : Byte) (h0 : isHexDigit a0 = true) (h1 : isHexDigit a1 = true)
+    (h2 : isHexDigit a2 = true) (h3 : isHexDigit a3 = true) :
+    (((if a0 ≤ 57 then a0 - 48 else (a0 ||| 32) - 97 + 10) <<< 4 ||| (if a1 ≤ 57 then a1 - 48 else (a1 ||| 32) - 97 + 10)) <<< 4 |||
+        (if a2 ≤ 57 then a2 - 48 else (a2 ||| 32) - 97 + 10)) <<< 4 ||| (if a3 ≤ 57 then a3 - 48 else (a3 ||| 32) - 97 + 10)
+      = scanHex [a0, a1, a2, a3] := by
+  obtain ⟨e0, l0⟩ := hexdigit_arith a0 h0
+  obtain ⟨e1, l1⟩ := hexdigit_arith a1 h1
+  obtain ⟨e2, l2⟩ := hexdigit_arith a2 h2
+  obtain ⟨e3, l3⟩ := hexdigit_arith a3 h3
+  rw [e0, e1, e2, e3, shl4_or _ _ l1, shl4_or _ _ l2, shl4_or _ _ l3]
+  simp [scanHex]
+
+theorem pair_arith (w1 w2 : Nat) :
+    ((w1 &&& 1023) % 4294967296) <<< 10 ||| (w2 &&& 1023) % 4294967296 = w2 &&& 1023 ||| (w1 &&& 1023) <<< 10 := by
+  rw [and1023_mod, and1023_mod, Nat.or_comm]
+
 theorem gen_string : ∀ (f line : Nat) (acc r : List Byte), JsonCode.strL0 f line acc r = readStr f line acc r := by
   intro f
   induction f with
@@ -163,6 +193,8 @@ theorem gen_string : ∀ (f line : Nat) (acc r : List Byte), JsonCode.strL0 f li
               · by_cases h2 : isHexDigit a2 = true
                 · by_cases h3 : isHexDigit a3 = true
                   · simp only [hex4, Res.bind, List.drop, h0, h1, h2, h3, if_true, List.nil_append, List.cons_append]
+                    have w1e := hexword_arith a0 a1 a2 a3 h0 h1 h2 h3
+                    try simp only [Nat.zero_or, w1e]
                     by_cases hs2 : scanHex [a0, a1, a2, a3] &&& 64512 = 55296
                     · have hs1 := sur_mask _ hs2
                       · simp only [hs1, hs2, and_self, if_true]
@@ -179,7 +211,9 @@ theorem gen_string : ∀ (f line : Nat) (acc r : List Byte), JsonCode.strL0 f li
                               · by_cases k1 : isHexDigit d1 = true
                                 · by_cases k2 : isHexDigit d2 = true
                                   · by_cases k3 : isHexDigit d3 = true
-                                    · simp [hex4, Res.bind, and1023_mod, g1, g2, k0, k1, k2, k3]
+                                    · have w2e := hexword_arith d0 d1 d2 d3 k0 k1 k2 k3
+                                      simp [hex4, Res.bind, and1023_mod, g1, g2, k0, k1, k2, k3] <;>
+                                        (simp only [w2e] <;> simp [Nat.or_comm])
                                     · simp [hex4, Res.bind, g1, g2, k0, k1, k2, k3]
                                   · simp [hex4, Res.bind, g1, g2, k0, k1, k2]
                                 · simp [hex4, Res.bind, g1, g2, k0, k1]
